@@ -75,7 +75,7 @@ static struct struct_ext2_filsys FS;
 static struct ext2_super_block SB;
 static struct e2fsck_struct CTX;
 static char ro_jname[] = "jdev";
-unsigned int g_write_inode, g_sbcsum_set, g_uuid_gen;
+unsigned int g_write_inode, g_sbcsum_set, g_uuid_gen, g_read_inode;
 unsigned int g_jsb_writes;		/* ghost: writes of the journal-superblock block */
 unsigned long long g_jsb_blocknr;
 
@@ -163,6 +163,7 @@ void com_err(const char *whoami, errcode_t code, const char *fmt, ...) { }
 char *gettext(const char *msgid) { return (char *)msgid; }
 errcode_t ext2fs_read_inode(ext2_filsys fs, ext2_ino_t ino, struct ext2_inode *inode)
 {
+	g_read_inode++;
 	memcpy(inode, IN.jinode, sizeof(*inode));
 	return RO_ERR();
 }
@@ -217,7 +218,7 @@ static void ro_build(void)
 #endif
 	RO_MON_RESET();
 	ro_nchoice = 0;
-	g_write_inode = g_sbcsum_set = g_uuid_gen = g_jsb_writes = 0;
+	g_write_inode = g_sbcsum_set = g_uuid_gen = g_jsb_writes = g_read_inode = 0;
 	memset(&RO_MGR, 0, sizeof(RO_MGR));
 	RO_MGR.magic = EXT2_ET_MAGIC_IO_MANAGER;
 	RO_MGR.open = st_open;
